@@ -1149,6 +1149,139 @@ class Interp(seq_detached.DetachedMixin, S.SeqRun):
             idx = [o.mid for o in self.live_sorted()].index(tgt.mid)
             self.op_set(idx, r.below(1000), r.below(1000))
 
+    def op_peer(self, a, b, c):
+        """A peer - another process with the same database file open - commits one small write behind the session's
+        back (deletes an unlinked row, empties a nullable unique column and maybe hands the value to another row,
+        changes a plain column).  From then on the model no longer claims to know what the session sees: reads and
+        changes go on unjudged, any error ends the session, and the session is rolled back at its end.  What stays
+        judged: the white-box index invariants after every operation that returned (C11: each key value in the
+        session maps to the object that holds it, also after rows were read again), an UPDATE that matched no row
+        and was accepted by the flush of an optimistic session (C09: the program would commit a change that is not
+        in the database), and all-or-nothing of the rolled-back session against committed state + the peer's write."""
+        import sqlite3
+        opts = self.cur_session_opts
+        if self.peer or self.blind or self.knobs.get('hook_mode') or self.raw_kw or self.knobs.get('legacy_keys'):
+            return
+        if opts.get('ddl') or opts.get('optimistic') is False or opts.get('serializable') or opts.get('immediate'):
+            return          # those sessions hold the database lock from their first statement: the peer would wait
+        if self.case.get('faults') or self.case.get('fault_op') or self.case.get('end_fault') \
+                or self.fault_fired_in_session or self.case.get('detached'):
+            return
+        cv = self.committed
+        live = [o for o in sorted(cv.live(), key=lambda o: o.mid) if o.stored and o.pk is not None and o.ent != 'Log']
+        kind = a % 3
+        v2 = cv.clone()
+        stmts = []
+
+        def where(o):
+            P = self.E[o.ent]
+            return ' AND '.join('"%s" = ?' % col for col in P._pk_columns_), list(o.pk)
+
+        if kind == 0:
+            cands = [o for o in live
+                     if not any(cv.partners(at, o.mid) for at in self.schema.by_name[o.ent].attrs if at.is_rel)]
+            if not cands:
+                return
+            x = cands[b % len(cands)]
+            w, args = where(x)
+            stmts.append(('DELETE FROM "%s" WHERE %s' % (self.E[x.ent]._table_, w), args))
+            v2.delete(x.mid)
+            what = 'deletes %s#%d' % (x.ent, x.mid)
+        elif kind == 1:
+            cands = [(o, at) for o in live for at in self.schema.by_name[o.ent].scalars()
+                     if at.unique and not at.is_pk and at.nullable and o.vals.get(at.name) is not None]
+            if not cands:
+                return
+            x, at = cands[b % len(cands)]
+            val = x.vals[at.name]
+            col = getattr(self.E[x.ent], at.name).column
+            w, args = where(x)
+            stmts.append(('UPDATE "%s" SET "%s" = NULL WHERE %s' % (self.E[x.ent]._table_, col, w), args))
+            v2.objs[x.mid].vals[at.name] = None
+            what = 'empties %s#%d.%s (%r)' % (x.ent, x.mid, at.name, val)
+            heirs = [o for o in live if o.mid != x.mid and at.name in self.schema.by_name[o.ent].by_name
+                     and o.vals.get(at.name) is None]
+            if heirs and c % 2:
+                y = heirs[(c >> 1) % len(heirs)]
+                w, args = where(y)
+                stmts.append(('UPDATE "%s" SET "%s" = ? WHERE %s' % (self.E[y.ent]._table_, col, w), [val] + args))
+                v2.objs[y.mid].vals[at.name] = val
+                what += ' and gives it to %s#%d' % (y.ent, y.mid)
+        else:
+            cands = []
+            for o in live:
+                e = self.schema.by_name[o.ent]
+                in_keys = set(n for k in e.composite_keys for n in k)
+                for at in e.scalars():
+                    if at.is_pk or at.unique or at.is_json or at.name in in_keys or at.lazy or at.volatile:
+                        continue
+                    vals = [v for v in pool(e.name, at.name) if v != o.vals.get(at.name)
+                            and (v is not None or not at.required) and not (v is None and at.type == 'str'
+                                                                            and not at.nullable)]
+                    if vals:
+                        cands.append((o, at, vals))
+            if not cands:
+                return
+            x, at, vals = cands[b % len(cands)]
+            val = vals[c % len(vals)]
+            col = getattr(self.E[x.ent], at.name).column
+            w, args = where(x)
+            stmts.append(('UPDATE "%s" SET "%s" = ? WHERE %s' % (self.E[x.ent]._table_, col, w), [val] + args))
+            v2.objs[x.mid].vals[at.name] = val
+            what = 'sets %s#%d.%s = %r' % (x.ent, x.mid, at.name, val)
+        self.cur_op_desc = 'peer ' + what
+        con = sqlite3.connect(self.path, isolation_level=None, timeout=0)
+        try:
+            con.execute('PRAGMA foreign_keys = ON')
+            con.execute('BEGIN IMMEDIATE')
+            n = 0
+            for sql, args in stmts:
+                n += con.execute(sql, args).rowcount
+            con.execute('COMMIT')
+        except sqlite3.OperationalError:
+            # the session holds a write transaction (it has flushed): the peer would have to wait
+            self.probe('peer_write_blocked')
+            return
+        except sqlite3.IntegrityError:
+            self.probe('peer_write_refused')
+            return
+        finally:
+            con.close()
+        if n != len(stmts):
+            raise RuntimeError('peer write touched %d rows, expected %d: %s' % (n, len(stmts), what))
+        self.trace.append('%s.%s OK   peer %s' % (self.sess_index, self.op_index, what))
+        self.committed = v2
+        self.peer = {'g': simdb.ctx.g, 'kind': kind, 'what': what}
+        self.probe('peer_write_%s' % ('delete', 'unique_to_null', 'scalar')[kind])
+        # (counted with the injected faults in the evidence; kept apart from simdb's list, which the fault logic reads)
+        self.peer_fired.append([simdb.ctx.g, 'peer', 0, 'between_ops', 'peer_write_' + ('delete', 'unique_to_null', 'scalar')[kind]])
+
+    def finish_peer_session(self):
+        """end of a session that went on after a peer's write: flush (what commit would send), judge, roll back"""
+        info = self.peer
+        self.cur_op_desc = 'flush at the end of a session that a peer wrote behind (%s)' % info['what']
+        try:
+            flush()
+            ok = True
+        except Exception as e:
+            ok = False
+            self.probe('peer_session_refused_' + type(e).__name__)
+        if ok:
+            self.probe('peer_session_flush_ok')
+            zero = [ev for ev in simdb.ctx.events if ev['g'] >= info['g'] and ev.get('kind') == 'execute'
+                    and ev.get('rc') == 0 and (ev.get('sql') or '').startswith('UPDATE "') and 'exc' not in ev]
+            if zero:
+                self.viol('C09', 'update-of-vanished-row-accepted', 'peer=%s' % ('delete', 'unique_to_null', 'scalar')[info['kind']],
+                          'a peer %s and committed; the session then sent %r, which matched no row, and its flush '
+                          'reported nothing: commit() would succeed although the change is not in the database'
+                          % (info['what'], zero[0].get('sql')))
+        self.cur_op_desc = 'rollback at the end of a session that a peer wrote behind'
+        rollback()
+        self.discard_session_state('peer write, rolled back')
+        self.compare_db(self.committed, 'C09', 'rolled-back-changes-visible', 'peer-write-then-rollback')
+        self.peer = None
+        self.probe('peer_session_rolled_back')
+
     def op_bulk_del(self, a, b, c):
         """select(...).delete(bulk=True): one DELETE statement, the database's ON DELETE clauses do what
         Entity._delete_ does in memory (C15: "including rows deleted by bulk query deletes").  The objects in
@@ -1798,6 +1931,7 @@ class Interp(seq_detached.DetachedMixin, S.SeqRun):
         self.session_clean = True
         self.fault_fired_in_session = False
         self.blind = False
+        self.peer = None
         self.stop_session = False
         self.cycle_flushed = False
         self.cycle_error_seen = False
@@ -1823,8 +1957,10 @@ class Interp(seq_detached.DetachedMixin, S.SeqRun):
                     if fo and fo[0] == si and fo[1] == oi:
                         simdb.ctx.gfaults[simdb.ctx.g + int(fo[2])] = fo[3]
                     g_before = simdb.ctx.g
-                    if self.blind and name in ('commit', 'rollback'):
+                    if (self.blind or self.peer) and name in ('commit', 'rollback'):
                         name = 'flush'       # a carried-on session is rolled back at its end, nowhere else
+                    if self.peer and name in ('bulk_del', 'peer', 'cycle', 'fail_probe', 'partial'):
+                        continue
                     try:
                         self.dispatch(name, a, b, c)
                     except S.Poisoned:
@@ -1835,6 +1971,9 @@ class Interp(seq_detached.DetachedMixin, S.SeqRun):
                             self.op_calls.append([si, oi, simdb.ctx.g - g_before])
                     self.after_op()
                 self.op_index = 'end'
+                if self.peer:
+                    self.finish_peer_session()
+                    raise CarriedOn()
                 if self.blind:
                     # all-or-nothing: this session never committed, so nothing of it may be in the database
                     self.cur_op_desc = 'rollback after a caught database error'
@@ -1897,6 +2036,7 @@ class Interp(seq_detached.DetachedMixin, S.SeqRun):
             simdb.ctx.gfaults.clear()
             simdb.ctx.before_call = None
             self.blind = False
+            self.peer = None
         if self.case.get('detached') and not core.local.db2cache and self.last_handles:
             self.detached_phase(si, self.last_handles, self.last_view, how, bool(opts.get('strict')))
         self.last_handles, self.last_view = {}, None
@@ -1968,6 +2108,8 @@ class Interp(seq_detached.DetachedMixin, S.SeqRun):
             # (inside a ddl session SQLite's foreign keys are switched off on purpose: no ON DELETE actions there)
             if not self.knobs.get('hook_mode') and not self.cur_session_opts.get('ddl'):
                 self.op_bulk_del(a, b, c)
+        elif name == 'peer':
+            self.op_peer(a, b, c)
         elif name == 'jedit':
             self.op_jedit(a, b, c)
         elif name == 'cycle':
@@ -2058,7 +2200,7 @@ def run_case(case, scratch, cls=None):
     main_events = [ev for ev in c.events[n_setup:]]
     digest = hsh([[ev['g'], ev['kind'], ev.get('sql'), ev.get('params'), ev.get('rows'), ev.get('fault'),
                    ev.get('exc')] for ev in main_events] + [sorted(v['key'] for v in run.violations)])
-    fired = c.fired
+    fired = c.fired + run.peer_fired
     n_mod = run.probes.get('modification_accepted', 0)
     return {
         'violations': run.violations,
